@@ -57,10 +57,25 @@ def _load(check_id):
     return importlib.import_module("checks." + check_id.lower())
 
 
+_WARM = [False]
+
+
+def _warm():
+    """Import hy (and compile its core .hy files) once per worker, outside any
+    per-case watchdog, so a slow first import can't be mistaken for a case
+    outcome or leave a partially initialised module behind."""
+    if not _WARM[0]:
+        import hy
+        import hy.compiler, hy.core.result_macros, hy.core.hy_repr, hy.core.util, hy.reader, hy.repl  # noqa
+        hy.eval(hy.read("(do (setv _w 1) (when _w (lfor i [1] i)))"), {})
+        _WARM[0] = True
+
+
 def _work(args):
     check_id, shard, tier = args
     t0 = time.time()
     try:
+        _warm()
         mod = _load(check_id)
         res = mod.run_shard(shard, tier)
         res["_wall"] = time.time() - t0
@@ -71,6 +86,7 @@ def _work(args):
 
 def _recheck_main(check_id, tier, case_json):
     """Fresh-process re-execution of one case (determinism gate / replay)."""
+    _warm()
     mod = _load(check_id)
     case = json.loads(case_json)
     out = mod.recheck(case, tier)
